@@ -205,7 +205,7 @@ func TestC11(t *testing.T) {
 		if d.accepted["staking"] > 0 {
 			cl = append(cl, "vesting_account_delegated")
 		}
-		st.Case(nt, map[string]interface{}{"genesis": g, "history": d.log}, cl...)
+		st.Case(nt, map[string]interface{}{"genesis": g, "history": d.log}, append(cl, d.txShapeClasses()...)...)
 	})
 }
 
